@@ -87,7 +87,7 @@ imb_hmac_ipad_opad(IMB_MGR *mb_mgr, const IMB_HASH_ALG sha_type, const void *pke
                          * Key lengths longer than MD5 block
                          * size not supported
                          */
-                        imb_set_errno(NULL, IMB_ERR_KEY_LEN);
+                        imb_set_errno(mb_mgr, IMB_ERR_KEY_LEN);
                         return;
                 }
                 break;
@@ -95,7 +95,7 @@ imb_hmac_ipad_opad(IMB_MGR *mb_mgr, const IMB_HASH_ALG sha_type, const void *pke
                 local_key_len = (key_len <= IMB_SM3_BLOCK_SIZE) ? key_len : IMB_SM3_DIGEST_SIZE;
                 break;
         default:
-                imb_set_errno(NULL, IMB_ERR_HASH_ALGO);
+                imb_set_errno(mb_mgr, IMB_ERR_HASH_ALGO);
                 return;
         }
         uint8_t key[IMB_SHA_512_BLOCK_SIZE];
